@@ -29,7 +29,12 @@ HOME = 'logica_home'
 # ------------------------------------------------------------------ workload
 
 def gen_case(r, hashseed, tier):
-  program = gen.gen_nonrecursive(r, n_idb=r.randint(3, 6))
+  preset = None
+  if r.random() < 0.12:
+    program = gen.gen_withchain(r)       # nested WITH helpers between grounded tables
+    preset = program['ground']
+  else:
+    program = gen.gen_nonrecursive(r, n_idb=r.randint(3, 6))
   idb = gen.idb_names(program)
   dep = gen.dependants(program)
   has_dependants = [n for n in idb if any(n in dep[m] for m in idb)]
@@ -37,6 +42,8 @@ def gen_case(r, hashseed, tier):
   ground = sorted(set(r.sample(pool, min(len(pool), r.choice([1, 1, 2, 3])))))
   if r.random() < 0.3:
     ground = sorted(set(ground) | {r.choice(idb)})
+  if preset is not None:
+    ground = list(preset)
   ground_table = {}
   for g in ground:
     if r.random() < 0.3:
